@@ -77,6 +77,58 @@ Qed.
 End KARV.
 Print Assumptions karv_distortion.
 
+(* the same argument when the winner maximises the simulated welfare only up to a factor (1 + delta): this is what a
+   winner selected by FLOATING-POINT column sums satisfies (relative rounding error of a sum of n non-negative doubles) *)
+Section KARV_SLACK.
+Variables (I J : list nat).
+Variables (v vt : nat -> nat -> Q).
+Variable fav : nat -> nat.
+Variable tk : nat -> Q.
+Variables (rho delta : Q).
+Let m : Q := inject_Z (Z.of_nat (length J)).
+Hypothesis Hrho : 0 <= rho.
+Hypothesis Hdelta : 0 <= delta.
+Hypothesis Hm : 0 < m.
+Hypothesis H1 : forall i j, In i I -> In j J -> 0 <= vt i j /\ vt i j <= v i j.
+Hypothesis H2 : forall i j, In i I -> In j J -> v i j <= rho * vt i j + tk i.
+Hypothesis H3 : forall i, In i I -> m * tk i <= rho * vt i (fav i).
+Hypothesis H4 : forall i, In i I -> In (fav i) J.
+Variables (x y : nat).
+Hypothesis Hx : In x J.
+Hypothesis Hy : In y J.
+Hypothesis Hmax : forall j, In j J -> SWt I vt j <= (1 + delta) * SWt I vt y.
+
+Theorem karv_distortion_slack : SW I v x <= 2 * rho * (1 + delta) * SW I v y.
+Proof.
+  set (T := sumQ tk I). set (S := SWt I vt y).
+  assert (D : 0 <= S) by (unfold S, SWt; apply sumQ_nonneg; intros i Hi; apply H1; assumption).
+  assert (A : SW I v x <= rho * ((1 + delta) * S) + T).
+  { unfold SW. apply Qle_trans with (sumQ (fun i => rho * vt i x + tk i) I).
+    - apply sumQ_le. intros i Hi. apply H2; assumption.
+    - rewrite sumQ_add, sumQ_scale. fold (SWt I vt x). fold T. pose proof (Hmax x Hx) as Hle. fold S in Hle.
+      set (a := SWt I vt x) in *. nra. }
+  assert (B : m * T <= rho * (m * ((1 + delta) * S))).
+  { unfold T. rewrite <- sumQ_scale.
+    apply Qle_trans with (sumQ (fun i => rho * vt i (fav i)) I); [apply sumQ_le; intros i Hi; apply H3; exact Hi|].
+    rewrite sumQ_scale.
+    assert (C1 : sumQ (fun i => vt i (fav i)) I <= sumQ (fun i => sumQ (vt i) J) I).
+    { apply sumQ_le. intros i Hi. apply (term_le_sumQ (vt i) J (fav i)); [intros j Hj; apply H1; assumption|apply H4; exact Hi]. }
+    assert (C2 : sumQ (fun i => sumQ (vt i) J) I == sumQ (SWt I vt) J) by (rewrite sumQ_swap; reflexivity).
+    assert (C3 : sumQ (SWt I vt) J <= m * ((1 + delta) * S)).
+    { apply Qle_trans with (sumQ (fun _ => (1 + delta) * S) J); [apply sumQ_le; exact Hmax|]. rewrite sumQ_const. fold m. lra. }
+    rewrite C2 in C1. set (a := sumQ (fun i => vt i (fav i)) I) in *. set (b := sumQ (SWt I vt) J) in *. nra. }
+  assert (C : S <= SW I v y) by (unfold S, SWt, SW; apply sumQ_le; intros i Hi; apply H1; assumption).
+  assert (E : T <= rho * ((1 + delta) * S)).
+  { apply Qmult_le_l with (z := m); [exact Hm|]. lra. }
+  set (u := SW I v y) in *. set (w := SW I v x) in *.
+  assert (F : 0 <= rho * (1 + delta)) by nra. set (c := rho * (1 + delta)) in *.
+  assert (G : rho * ((1 + delta) * S) == c * S) by (unfold c; ring). rewrite G in A, E.
+  assert (K : c * S <= c * u) by nra.
+  assert (L : 2 * rho * (1 + delta) * u == 2 * (c * u)) by (unfold c; ring). rewrite L. lra.
+Qed.
+End KARV_SLACK.
+Print Assumptions karv_distortion_slack.
+
 (* C16, the lambda-TSF argument: assignments instead of single alternatives, epsilon floor on simulated values *)
 Section TSF.
 Variable I : list nat.                       (* agents; an assignment maps agents to items *)
